@@ -66,6 +66,8 @@ type Exec struct {
 	protectedRW                      map[int]bool // objects for which reads need the mutex as well
 	LedDevice, LedCapture, LedCancel Value
 	lastClock                        *smt.Term
+	catchers                         []*catcher
+	recoverVal                       Value
 	ctxErr                           Value
 	ufMemo                           map[string][]Value
 	DecodeFailKind                   *smt.Term
@@ -167,11 +169,56 @@ func shortFile(f string) string {
 }
 
 // implicitPanic records a run-time panic under cond and continues on the non-panicking side.
+// A frame whose deferred closure calls recover() catches the run-time panics raised below it: instead of being
+// recorded as outcomes, the states in which they happen are parked and, when the frame finishes, taken through
+// the frame's deferred calls (recover() answering non-nil) and the function's recover block; their results are
+// merged with the normal return. Deadlocks and fatal errors are not recoverable and stay outcomes.
+type catcher struct {
+	fr     *Frame
+	defers []*deferEntry // the deferred calls registered up to and including the recovering one
+	caught []*caughtState
+}
+
+type caughtState struct {
+	st     *State
+	defers []*deferEntry
+}
+
+func (ex *Exec) panicOutcome(st *State, msg string, site ssa.Instruction, cond *smt.Term) {
+	if cond.IsFalse() {
+		return
+	}
+	if n := len(ex.catchers); n > 0 && !ex.inE2 {
+		c := ex.catchers[n-1]
+		s2 := st.clone()
+		s2.pc = cond
+		s2.dead = false
+		c.caught = append(c.caught, &caughtState{st: s2, defers: append([]*deferEntry(nil), c.defers...)})
+		ex.Notes = append(ex.Notes, "a run-time panic below "+c.fr.fn.String()+" is recovered by its deferred function ("+msg+")")
+		return
+	}
+	ex.outcome("panic", msg, site, cond)
+}
+
+// recovers: the function (a deferred closure) calls the builtin recover.
+func recovers(fn *ssa.Function) bool {
+	for _, b := range fn.Blocks {
+		for _, in := range b.Instrs {
+			if c, ok := in.(*ssa.Call); ok {
+				if bi, ok := c.Call.Value.(*ssa.Builtin); ok && bi.Name() == "recover" {
+					return true
+				}
+			}
+		}
+	}
+	return false
+}
+
 func (ex *Exec) implicitPanic(st *State, site ssa.Instruction, msg string, cond *smt.Term) {
 	if cond.IsFalse() {
 		return
 	}
-	ex.outcome("panic", msg, site, smt.And(st.pc, cond))
+	ex.panicOutcome(st, msg, site, smt.And(st.pc, cond))
 	st.assume(smt.Not(cond))
 }
 
@@ -468,6 +515,11 @@ func (ex *Exec) CallFn(st *State, site ssa.Instruction, fn *ssa.Function, args [
 		fr.regs[fv] = bind[i]
 	}
 	ex.run(st, fr, fn.Blocks[0], nil, nil, false)
+	for _, c := range ex.catchers {
+		if c.fr.fn == fn && c.fr.depth == fr.depth {
+			return ex.finishCatcher(st, fr, site)
+		}
+	}
 	if st.dead {
 		return nil
 	}
@@ -475,6 +527,66 @@ func (ex *Exec) CallFn(st *State, site ssa.Instruction, fn *ssa.Function, args [
 		panic(unsupported("function ended without return: " + name))
 	}
 	return fr.ret
+}
+
+// finishCatcher resumes the parked panicking states of a recovering frame and merges them with its normal return.
+func (ex *Exec) finishCatcher(st *State, fr *Frame, site ssa.Instruction) Value {
+	var c *catcher
+	for i := len(ex.catchers) - 1; i >= 0; i-- {
+		if ex.catchers[i].fr.fn == fr.fn && ex.catchers[i].fr.depth == fr.depth {
+			c = ex.catchers[i]
+			ex.catchers = append(ex.catchers[:i], ex.catchers[i+1:]...)
+			break
+		}
+	}
+	var ret Value
+	if !st.dead {
+		if !fr.returned {
+			panic(unsupported("function ended without return: " + fr.fn.String()))
+		}
+		ret = fr.ret
+	}
+	if c == nil {
+		return ret
+	}
+	for _, cs := range c.caught {
+		s := cs.st
+		if s.pc.IsFalse() {
+			continue
+		}
+		guard := s.pc
+		f2 := &Frame{fn: fr.fn, regs: fr.regs, visits: map[*ssa.BasicBlock]int{}, depth: fr.depth, defers: cs.defers}
+		ex.recoverVal = &IfaceV{T: nil, V: ex.newOpaque("panic value")}
+		for len(f2.defers) > 0 && !s.dead {
+			d := f2.defers[len(f2.defers)-1]
+			f2.defers = f2.defers[:len(f2.defers)-1]
+			ex.guarded(s, d.G, func(s *State) { ex.runDeferred(s, f2, site, d) })
+		}
+		if ex.recoverVal != nil {
+			// no deferred call consumed the panic on this path: it propagates
+			ex.recoverVal = nil
+			ex.panicOutcome(s, "panic not recovered by the deferred function of "+fr.fn.String(), site, s.pc)
+			continue
+		}
+		if s.dead {
+			continue
+		}
+		ex.run(s, f2, fr.fn.Recover, nil, nil, false)
+		if s.dead || !f2.returned {
+			continue
+		}
+		r2 := f2.ret
+		dst := &State{}
+		mergeStates(dst, guard, s, st)
+		*st = *dst
+		switch {
+		case ret == nil:
+			ret = r2
+		case r2 != nil:
+			ret = mergeV(guard, r2, ret)
+		}
+	}
+	return ret
 }
 
 func isSyntheticWrapper(fn *ssa.Function) bool {
@@ -561,7 +673,7 @@ func (ex *Exec) applyFuncValue(st *State, site ssa.Instruction, fv Value, args [
 		case *FuncV:
 			return ex.CallFn(st, site, f.Fn, args, f.Bind, depth)
 		case *NilV:
-			ex.outcome("panic", "call of nil function", site, st.pc)
+			ex.panicOutcome(st, "call of nil function", site, st.pc)
 			st.kill()
 			return nil
 		case *Opaque:
@@ -579,7 +691,7 @@ func (ex *Exec) invoke(st *State, site ssa.Instruction, recv Value, m *types.Fun
 	return ex.withChoice(st, recv, func(st *State, v Value) Value {
 		switch r := v.(type) {
 		case *NilV:
-			ex.outcome("panic", "nil interface method call "+m.Name(), site, st.pc)
+			ex.panicOutcome(st, "nil interface method call "+m.Name(), site, st.pc)
 			st.kill()
 			return nil
 		case *IfaceV:
@@ -765,7 +877,7 @@ func (ex *Exec) run(st *State, fr *Frame, b *ssa.BasicBlock, pred *ssa.BasicBloc
 						msg = "panic: " + describe(iv.V)
 					}
 				}
-				ex.outcome("panic", msg, in, st.pc)
+				ex.panicOutcome(st, msg, in, st.pc)
 				st.kill()
 				return
 			default:
@@ -880,7 +992,7 @@ func (ex *Exec) step(st *State, fr *Frame, instr ssa.Instruction) {
 				path := append(append([]PathEl(nil), p.Path...), PathEl{Field: in.Field})
 				return &PtrV{Obj: p.Obj, Path: path}
 			case *NilV:
-				ex.outcome("panic", "nil pointer dereference (field address)", in, st.pc)
+				ex.panicOutcome(st, "nil pointer dereference (field address)", in, st.pc)
 				st.kill()
 				return nil
 			}
@@ -921,7 +1033,7 @@ func (ex *Exec) step(st *State, fr *Frame, instr ssa.Instruction) {
 				path := append(append([]PathEl(nil), a.Path...), PathEl{Idx: idx})
 				return &PtrV{Obj: a.Obj, Path: path}
 			case *NilV:
-				ex.outcome("panic", "nil pointer dereference (index address)", in, st.pc)
+				ex.panicOutcome(st, "nil pointer dereference (index address)", in, st.pc)
 				st.kill()
 				return nil
 			}
@@ -1018,6 +1130,10 @@ func (ex *Exec) step(st *State, fr *Frame, instr ssa.Instruction) {
 			d.Args = append(d.Args, ex.val(fr, a))
 		}
 		fr.defers = append(fr.defers, d)
+		if fv, ok := d.Fn.(*FuncV); ok && fv.Fn != nil && recovers(fv.Fn) && !fr.catching && fr.fn.Recover != nil && !ex.inE2 {
+			fr.catching = true
+			ex.catchers = append(ex.catchers, &catcher{fr: fr, defers: append([]*deferEntry(nil), fr.defers...)})
+		}
 	case *ssa.RunDefers:
 		for len(fr.defers) > 0 {
 			d := fr.defers[len(fr.defers)-1]
@@ -1100,7 +1216,7 @@ func (ex *Exec) getPath(st *State, site ssa.Instruction, v Value, path []PathEl)
 		if el.Idx.IsConst() {
 			k := int(el.Idx.V)
 			if k < 0 || k >= len(av.E) {
-				ex.outcome("panic", "index out of range (load)", site, st.pc)
+				ex.panicOutcome(st, "index out of range (load)", site, st.pc)
 				st.kill()
 				return nil
 			}
@@ -1161,7 +1277,7 @@ func (ex *Exec) store(st *State, site ssa.Instruction, addr Value, v Value) {
 			old := ex.get(st, p.Obj)
 			st.heap[p.Obj] = ex.setPath(old, p.Path, v)
 		case *NilV:
-			ex.outcome("panic", "nil pointer dereference (store)", site, st.pc)
+			ex.panicOutcome(st, "nil pointer dereference (store)", site, st.pc)
 			st.kill()
 		default:
 			panic(unsupported("store through " + describe(a)))
@@ -1179,7 +1295,7 @@ func (ex *Exec) unop(st *State, fr *Frame, in *ssa.UnOp) Value {
 			case *PtrV:
 				return ex.load(st, in, p)
 			case *NilV:
-				ex.outcome("panic", "nil pointer dereference (load)", in, st.pc)
+				ex.panicOutcome(st, "nil pointer dereference (load)", in, st.pc)
 				st.kill()
 				return nil
 			}
@@ -1536,7 +1652,7 @@ func (ex *Exec) typeAssert(st *State, in *ssa.TypeAssert, x Value) Value {
 			if in.CommaOk {
 				return &TupleV{E: []Value{ex.zero(in.AssertedType), smt.False}}
 			}
-			ex.outcome("panic", "failed type assertion", in, st.pc)
+			ex.panicOutcome(st, "failed type assertion", in, st.pc)
 			st.kill()
 			return nil
 		}
